@@ -59,8 +59,14 @@ def norm_1_2(ctx, rep):
     ok = bool(withs) and all(only_via(cfg, w, lambda e: norm(e) == "node.type == 'error_node'", 'T') for w in withs)
     sup = [n for n in cfg.nodes if n.kind == 'stmt' and 'super().visit(node)' in norm(n.ast)]
     ok = ok and bool(sup) and all(only_via(cfg, s, lambda e: norm(e) == "node.type == 'error_node'", 'F') for s in sup)
+    # ... and on *every* path: no early exit of the error_node branch before the node rules ran
+    etests = [t for t in cfg.nodes if t.kind == 'test' and norm(t.ast) == "node.type == 'error_node'"]
+    starts = [s2 for t in etests for s2, lab in t.succ if lab == 'T']
+    p_skip = find_path(cfg, starts, lambda n: n is cfg.exit, lambda n: n in withs)
+    ok = ok and bool(starts) and p_skip is None
     rep.ob('NORM-2', ERRORS, v.qual, 'error node: visit_node(node) without descending', ok,
-           'error nodes are descended into or skipped without running the node rules')
+           'error nodes are descended into or skipped without running the node rules%s'
+           % ((': ' + ' -> '.join(path_text(p_skip))) if p_skip else ''))
     vn = prog.func(ERRORS, 'ErrorFinder.visit_node')
     first = vn.node.body[0] if vn.node.body else None
     rep.ob('NORM-2', ERRORS, vn.qual, 'self._check_type_rules(node) first', first is not None and 'self._check_type_rules(node)' in norm(first),
